@@ -32,9 +32,11 @@ RULES = {
 PROBES = ["zlp_valid", "one_byte_payload_valid", "body_0_bytes", "body_1_byte", "crc_field_corrupt", "payload_corrupt",
           "pid_corrupt_to_other_data_pid", "pid_corrupt_to_valid_non_data_pid", "extended_packet", "aborted_packet",
           "valid_after_bad", "gap_1_cycle", "data2_or_mdata", "ready_for_response_seen", "complete_with_byte_gaps",
-          "high_speed_runs", "long_payload"]
+          "high_speed_runs", "long_payload", "device_level_runs"]
 META = {
-    "components_real": ["luna.gateware.usb.usb2.packet.USBDataPacketReceiver", "USBDataPacketCRC", "USBInterpacketTimer"],
+    "components_real": ["luna.gateware.usb.usb2.packet.USBDataPacketReceiver", "USBDataPacketCRC", "USBInterpacketTimer",
+                        "every 6th run: complete USBDevice (receiver, shared CRC unit and timer as wired in device.py), observed at "
+                        "a passive endpoint's EndpointInterface"],
     "components_stubbed": ["UTMI PHY receive side + host: literal waveform (models.usb2_wire.render_rx)"],
     "assumptions": ["legal UTMI receive side: rx_valid only while rx_active; rx_active rises >= 1 cycle before the first byte and "
                     "is low for >= 1 cycle between packets",
@@ -63,8 +65,15 @@ def _payload(rng, tier):
     return bytes(rng.getrandbits(8) for _ in range(n))
 
 
+DEVICE_EVERY = 6        # every 6th run (index % 6 == 4): the receiver as it sits inside a complete USBDevice, seen by an endpoint
+
+
 def gen(rng, tier, index):
     wiring = rng.choice(["standalone", "wired_fs", "wired_hs"])
+    if index % DEVICE_EVERY == 4:
+        # same stimulus (full-speed inter-packet timing); judged at the EndpointInterface a passive endpoint is given
+        # (rx stream, rx_complete, rx_invalid, rx_ready_for_response, rx_pid_toggle), with the PHY's tx_ready high while idle
+        wiring = "device"
     cfg = {"wiring": wiring}
     ipd = 3 if wiring == "wired_hs" else 12            # inter-packet delay incl. margin, in cycles
     fault_free = rng.random() < 0.15
@@ -163,6 +172,22 @@ class _WiredReceiver(Elaboratable):
 
 def _bench(wiring):
     def factory():
+        if wiring == "device":
+            from luna.gateware.interface.utmi import UTMIInterface
+            from luna.gateware.usb.usb2.device import USBDevice
+            from engines.usb2_device import SpyEndpoint
+            utmi = UTMIInterface()
+            dut = USBDevice(bus=utmi)
+            dut.always_fs = False               # the configuration USBDevice gives itself on a ULPI PHY (60 MHz, all speeds)
+            dut.data_clock = 60e6
+            spy = SpyEndpoint()
+            dut.add_endpoint(spy)
+            i = spy.interface
+            ins = {"rx_data": utmi.rx_data, "rx_active": utmi.rx_active, "rx_valid": utmi.rx_valid, "tx_ready": utmi.tx_ready,
+                   "line_state": utmi.line_state, "connect": dut.connect, "full_speed_only": dut.full_speed_only}
+            outs = {"s_valid": i.rx.valid, "s_next": i.rx.next, "s_payload": i.rx.payload, "complete": i.rx_complete,
+                    "mismatch": i.rx_invalid, "rfr": i.rx_ready_for_response, "packet_id": i.rx_pid_toggle}
+            return make_bench(dut, clocks={"usb": 1 / 60e6}, main="usb", ins=ins, outs=outs)
         if wiring == "standalone":
             from luna.gateware.interface.utmi import UTMIInterface
             from luna.gateware.usb.usb2.packet import USBDataPacketReceiver
@@ -178,7 +203,7 @@ def _bench(wiring):
                 "complete": rcv.packet_complete, "mismatch": rcv.crc_mismatch, "rfr": rcv.ready_for_response,
                 "packet_id": rcv.packet_id}
         return make_bench(dut, clocks={"usb": 1 / 60e6}, main="usb", ins=ins, outs=outs)
-    return cached_bench(("c02", wiring == "standalone"), factory)
+    return cached_bench(("c02", "device" if wiring == "device" else wiring == "standalone"), factory)
 
 
 def run(scn):
@@ -187,6 +212,8 @@ def run(scn):
     wiring = cfg["wiring"]
     bench = _bench(wiring)
     side = {} if wiring == "standalone" else {"speed": 0 if wiring == "wired_hs" else 1}
+    if wiring == "device":
+        side = {"tx_ready": 1, "line_state": 0b01, "connect": 1, "full_speed_only": 1}
     ipd = 3 if wiring == "wired_hs" else 12
     wave, packets = render_rx(ops, side=side, tail=40)
     actor = WaveActor(wave)
@@ -200,6 +227,8 @@ def run(scn):
     outcomes = set()
     if wiring == "wired_hs":
         probes["high_speed_runs"] += 1
+    if wiring == "device":
+        probes["device_level_runs"] += 1
 
     first_start = packets[0]["t_start"] if packets else len(S)
     for t in range(first_start):
@@ -293,7 +322,12 @@ def run(scn):
                 viol.add("C02.verdict", t_end, f"packet {sent.hex()} ({cls}) has a valid data PID and CRC16: expected exactly one packet_complete, "
                          f"observed complete at {completes}, mismatch at {mismatches}", observed=obs or "nothing", **shape)
             else:
-                if S[completes[0]]["packet_id"] != (pid & 0xF):
+                if wiring == "device":
+                    # an endpoint is only shown the data toggle (PID bit 3)
+                    if S[completes[0]]["packet_id"] != ((pid >> 3) & 1):
+                        viol.add("C02.packet_id", completes[0], f"rx_pid_toggle={S[completes[0]]['packet_id']} at completion of a packet "
+                                 f"with PID byte {pid:#04x}", observed="wrong_id", **shape)
+                elif S[completes[0]]["packet_id"] != (pid & 0xF):
                     viol.add("C02.packet_id", completes[0], f"packet_id={S[completes[0]]['packet_id']:#x} at completion of a packet with "
                              f"PID byte {pid:#04x}", observed="wrong_id", **shape)
                 if completes[0] - t_end > LATENCY_BOUND:
